@@ -10,6 +10,12 @@ package verifhook
 
 import "sync/atomic"
 
+// Event is the value passed to Note by sites that have a source object (for example a notifier).
+type Event struct {
+	Src any
+	V   any
+}
+
 type (
 	yieldFn func(site string)
 	noteFn  func(site string, v any)
